@@ -454,6 +454,7 @@ def _format_segment(seg: Segment, part_values: PartValues) -> FormatedSeg:
 def _format_segment_tree(
     segtree    : SegmentTree,
     part_values: PartValues,
+    is_root    : bool = False,
 ) -> FormatedSeg:
     # NOTE (mb 2020-10-02): starting from the right, if there is any non-zero
     #   part, all further parts going left will be used. In other words, a part
@@ -472,7 +473,10 @@ def _format_segment_tree(
             is_zero = is_zero and formatted_seg.is_zero
             result_parts.append(formatted_seg.result)
 
-    result = "" if is_zero else "".join(result_parts)
+    # NOTE: Only optional segments (i.e. [braces]) are omitted, the root
+    #   of a pattern is rendered even if all of its parts are zero.
+    is_omitted = is_zero and not is_root
+    result     = "" if is_omitted else "".join(result_parts)
     return FormatedSeg(False, is_zero, result)
 
 
@@ -571,7 +575,7 @@ def format_version(vinfo: version.V2VersionInfo, raw_pattern: str) -> str:
         raw_pattern = raw_pattern[:-1]
 
     segtree       = _parse_segtree(raw_pattern)
-    formatted_seg = _format_segment_tree(segtree, part_values)
+    formatted_seg = _format_segment_tree(segtree, part_values, is_root=True)
     return formatted_seg.result
 
 
